@@ -113,3 +113,20 @@ func VerifModel_url_ParseQuery(s string) (url.Values, error) {
 	}
 	return out, nil
 }
+
+// ResolveReference for a reference that is a relative or absolute PATH (+ query) on the same
+// authority - the only use in sso (SignInPage): the authority comes from the base, the path is
+// resolved by the real algorithm on the (literal) paths, query and fragment come from the reference.
+func VerifModel_url_URL_ResolveReference(u *url.URL, ref *url.URL) *url.URL {
+	if ref.Scheme != "" || ref.Host != "" {
+		r := *ref
+		return &r
+	}
+	base := &url.URL{Path: u.Path}
+	p := base.ResolveReference(&url.URL{Path: ref.Path})
+	r := *u
+	r.Path = p.Path
+	r.RawQuery = ref.RawQuery
+	r.Fragment = ref.Fragment
+	return &r
+}
